@@ -367,3 +367,34 @@ func populate(ctx context.Context, e *storeEnv, c caseSpec, img *imageSrc) (ocis
 	}
 	return ocispec.Descriptor{MediaType: mtIndex, Digest: id, Size: int64(len(ib))}, nil
 }
+
+// writeManifest writes one more image (single manifest + config) over the given layer
+// descriptors, in the media type family of the case.
+func writeManifest(ctx context.Context, e *storeEnv, c caseSpec, name string, layers []ocispec.Descriptor, diffIDs []string) (ocispec.Descriptor, error) {
+	mtManifest, mtConfig := ocispec.MediaTypeImageManifest, ocispec.MediaTypeImageConfig
+	if c.Docker && !c.Docker2OCI {
+		mtManifest = "application/vnd.docker.distribution.manifest.v2+json"
+		mtConfig = "application/vnd.docker.container.image.v1+json"
+	}
+	var cfg configDoc
+	cfg.Architecture, cfg.OS = "amd64", "linux"
+	cfg.RootFS.Type = "layers"
+	cfg.RootFS.DiffIDs = diffIDs
+	cb, _ := json.Marshal(&cfg)
+	cd, err := e.put(ctx, "cfg-"+name, cb, nil)
+	if err != nil {
+		return ocispec.Descriptor{}, err
+	}
+	m := manifestDoc{SchemaVersion: 2, MediaType: mtManifest, Layers: layers,
+		Config: ocispec.Descriptor{MediaType: mtConfig, Digest: cd, Size: int64(len(cb))}}
+	mb, _ := json.Marshal(&m)
+	gc := map[string]string{"containerd.io/gc.ref.content.config": cd.String()}
+	for i, l := range layers {
+		gc[fmt.Sprintf("containerd.io/gc.ref.content.l.%d", i)] = l.Digest.String()
+	}
+	md, err := e.put(ctx, "manifest-"+name, mb, gc)
+	if err != nil {
+		return ocispec.Descriptor{}, err
+	}
+	return ocispec.Descriptor{MediaType: mtManifest, Digest: md, Size: int64(len(mb))}, nil
+}
